@@ -31,6 +31,8 @@ Inductive case13 :=
 | P_seq (pkg : string) (files : list string) (steps : list (list string)) (obs : list (oclass * list string))
 | P_write (pkg ann : string) (cls : oclass) (mkdir write : string)  (* LocalPackageWriter, one resource, fresh package *)
 | A_read (index : N) (doc after : node) (nonstr : list string)      (* reader annotations set on a decoded document *)
+| A_pkgread (index : N) (path : string) (doc after : node) (nonstr : list string)  (* … with SetAnnotations = path keys (package reader) *)
+| A_pkgwrite (doc after : node) (cls : oclass)                                    (* clearing sequence of the package writer *)
 | A_write (doc after : node) (cls : oclass) (nonstr : list string). (* writer clearing (the filter sequence of ByteWriter) *)
 
 Definition agree13 (c : case13) : bool :=
@@ -72,6 +74,16 @@ Definition agree13 (c : case13) : bool :=
       match read_set (fun s => str_in s ns) i doc with
       | Ok n => node_eqb n after
       | _ => false
+      end
+  | A_pkgread i path doc after ns =>
+      match pkg_read_set (fun s => str_in s ns) i path doc with
+      | Ok n => node_eqb n after
+      | _ => false
+      end
+  | A_pkgwrite doc after cls =>
+      match pkg_write_clear doc with
+      | Ok n => oclass_eqb13 cls COk && node_eqb n after
+      | r => oclass_eqb13 cls (class_of r)
       end
   | A_write doc after cls ns =>
       match write_clear doc with
